@@ -68,6 +68,8 @@ def gen_case(tape, tier):
         # tasks of a thread pool share the storage objects: every source line of the storage modules is a pre-emption point
         cfg["line_preempt"] = True
     case = {"workload": w, "config": cfg}
+    if len(w["indices"]) >= 2:
+        case["warmup_other_sizes"] = bool(len(w["functions"]) % 2)  # (no draw: existing cases keep their tapes)
     if tape.coin(0.3, "second-run"):
         # the same Pipeline object is mapped a second time under another configuration: nothing may leak
         cfg2 = dict(cfg, entry=tape.pick(["map", "map", "map_async"], "entry"), executor=C.gen_executor(tape, w),
@@ -146,6 +148,10 @@ def _uses_threads(ex):
 
 
 def simplify(case):
+    if case.get("warmup_other_sizes"):
+        c = copy.deepcopy(case)
+        c["warmup_other_sizes"] = False
+        yield c
     if case.get("restricted"):
         c = copy.deepcopy(case)
         del c["restricted"]
@@ -311,6 +317,19 @@ def _run_case(case, exec_seed, exec_tape, stack):
                     sim.probe("first_run_continues_restricted_run")
 
                 def main():
+                    if case.get("warmup_other_sizes") and not shared.get("warmed"):
+                        # the same Pipeline object was used before on a data set of other sizes (every axis of the root
+                        # arrays one longer), sequentially and in memory: nothing it learnt there may be used here
+                        shared["warmed"] = True
+                        w2 = copy.deepcopy(w)
+                        for a in sorted({a for d in w2["inputs"].values() for a in d.get("axes", [])}):
+                            w2["indices"][a] += 1
+                        try:
+                            p.map(build_inputs(w2), parallel=False, storage="dict", **map_kwargs(w2))
+                            sim.probe("warmup_on_other_sizes")
+                        except Exception:  # noqa: BLE001 - the other data set was refused: nothing happened
+                            pass
+                        del sim.calls[:]
                     if cfg["entry"] == "map":
                         return p.map(inputs, parallel=parallel, executor=executor, **kw)
 
